@@ -1,15 +1,15 @@
 From Coq Require Import List String.
-Require Import Model.Conv Model.Render Run.Agree.
+Require Import Model.Conv Model.Render Model.RenderSort Run.Agree.
 Import ListNotations.
 Definition render_case := (enode * string)%type.
 Definition render_case_ok (c : render_case) : bool :=
   let '(e, text) := c in
-  match render_str e with
+  match render_message e with
   | RText [s] => String.eqb s text
   | RUnmodelled => true
   | _ => false
   end.
 Definition render_mismatches := mismatches render_case_ok.
 Definition render_unmodelled (l : list render_case) : nat :=
-  List.length (filter (fun c => match render_str (fst c) with RUnmodelled => true | _ => false end) l).
-Definition render_case_model (c : render_case) := render_str (fst c).
+  List.length (filter (fun c => match render_message (fst c) with RUnmodelled => true | _ => false end) l).
+Definition render_case_model (c : render_case) := render_message (fst c).
